@@ -141,11 +141,26 @@ impl PieceType for Pawn {
             let capture_pawn = Pos::new(ep_file, rank);
 
             // if the opponent's pawn is checking the king (and the only piece checking the king)
-            // or if the there is no check and the opponent's pawn doesn't block a check against our king
-            // then we can capture it via en-passant with any unpinned pawn on the same rank and adjacent file as the
-            // opponent's pawn
-            if check_mask.contains(capture_pawn) && !board.pinned.contains(capture_pawn) {
-                for src in BitBoard::from(rank) & files & pieces & !board.pinned {
+            // or if the there is no check, then we can capture it via en-passant with any pawn
+            // on the same rank and adjacent file as the opponent's pawn, as long as removing both
+            // pawns from their squares and placing ours on the target square doesn't expose our king
+            // to an enemy slider (this covers pins of either pawn and the case where both pawns
+            // leave the king's rank at once)
+            if check_mask.contains(capture_pawn) || (check_mask & dest).any() {
+                let enemy = board.raw[!board.turn];
+                let rooks = (board.raw[Piece::Rook] | board.raw[Piece::Queen]) & enemy;
+                let bishops = (board.raw[Piece::Bishop] | board.raw[Piece::Queen]) & enemy;
+
+                for src in BitBoard::from(rank) & files & pieces {
+                    let after =
+                        (combined ^ BitBoard::from(src) ^ BitBoard::from(capture_pawn)) | dest;
+                    let attackers = (chess_lookup::rook_moves(king_sq, after) & rooks)
+                        | (chess_lookup::bishop_moves(king_sq, after) & bishops);
+
+                    if attackers.any() {
+                        continue;
+                    }
+
                     unsafe {
                         movelist.push_unchecked(LegalMovesAt {
                             src,
